@@ -354,8 +354,10 @@ class ModelCompiler:
                 elif isinstance(defn, xltypes.XLRange):
                     for row in defn.cells:
                         for column in row:
-                            extracted_model.cells[column] = copy.deepcopy(
-                                model.cells[column])
+                            # Empty cells of the range are not stored.
+                            if column in model.cells:
+                                extracted_model.cells[column] = \
+                                    copy.deepcopy(model.cells[column])
 
         # Copy everything the extracted cells depend on, directly or
         # transitively, through cell references, ranges and defined names.
